@@ -340,6 +340,15 @@ func generate(seed int64, n int, tier string, names []string) []Case {
 		cfg := configs[int((seed+int64(i))%int64(len(configs))+int64(len(configs)))%len(configs)]
 		cases = append(cases, Case{Kind: "suite", Server: "reference", Config: cfg, Order: order, Seed: seed})
 	}
+	if tier == "thorough" {
+		// every test as the first test on a fresh server, at the lowest election id and in every configuration
+		for i, cfg := range configs {
+			if i == 0 || i == 2 {
+				cfg.Base = uint64(1 + i/2)
+			}
+			cases = append(cases, Case{Kind: "cells", Server: "reference", Config: cfg, Order: append([]string{}, names...), Seed: seed})
+		}
+	}
 	// the catalogue: the transcribed tests on a fresh reference server, then each fault
 	// (election base 1000: at base 1 "Flush from non-elected master returns error" sends the invalid id 0 when it
 	// is the first test on a server, and fails for that reason on any server)
